@@ -29,7 +29,7 @@ def plan(tier, seed):
     quick = tier == "quick"
     n = 4 if quick else 5
     cfgs = []
-    limits = [("none", None)] + [("bytes", q) for q in (2, 3, 4, 6)] + [("pkts", q) for q in (1, 2, 3)]
+    limits = [("none", None)] + [("bytes", q) for q in (0, 2, 3, 4, 6)] + [("pkts", q) for q in (0, 1, 2, 3)]
     for rate in (0, 8, 16):
         for mode, q in limits:
             nn = n if (rate == 8 or not quick) else n - 1
@@ -41,6 +41,9 @@ def plan(tier, seed):
             for mode, q in (("none", None), ("bytes", 4), ("pkts", 3)):
                 cfgs.append(dict(kind="port", rate=rate, mode=mode, qlimit=q, N=n - 1, gaps=["S", "N", 1, 2], sizes=[1, 2, 3],
                                  order=0, mon=incl))
+    # samples taken exactly at arrival / departure instants (service included): any occupancy passed through at that instant
+    for order in (0, 1):
+        cfgs.append(dict(kind="port", rate=8, mode="none", qlimit=None, N=n - 1, gaps=["S", 1, 2], sizes=[1, 2], order=order, mon=True, coincide=1))
     for (mn, mx) in ((1, 2), (1, 3)):
         for q in (3, 4):
             for wf in (0, 1):
@@ -51,7 +54,7 @@ def plan(tier, seed):
                         cfgs.append(dict(kind="red", rate=8, mode=mode, qlimit=q, minth=mn, maxth=mx, wf=wf, maxp=mp,
                                          N=n, gaps=["S", 1, 2], sizes=[1, 2], order=0))
     return {"cfgs": cfgs, "budget": None,
-            "bound": "Port: N<=%d, rates {0,8,16}, qlimit None/bytes{2,3,4,6}/packets{1,2,3}, monitors in/excl; "
+            "bound": "Port: N<=%d, rates {0,8,16}, qlimit None/bytes{0,2,3,4,6}/packets{0,1,2,3}, monitors in/excl; "
                      "RED: N<=%d, thresholds (1,2),(1,3), qlimit {3,4}, weight {0,1}, max_p {.5,1}, both modes, 4 draws per decision (p/2, (1+p)/2, 15p/16, 17p/16)" % (n, n)}
 
 
@@ -98,7 +101,9 @@ def execute(ch, cfg):
         # harness-owned draw: one value on either side of the reference curve value p
         p = state["p"]
         if p is None or p <= 0 or p >= 1:
-            d = 0.5
+            # the decision must not depend on the draw here: offer a small and a large one
+            forced = [0.0625, 0.9375]
+            d = forced[ch.choose(2, lambda c: "draw %r (decision is forced)" % forced[c])]
         else:
             menu = [p / 2, (1 + p) / 2, p * 0.9375, min(p * 1.0625, (1 + p) / 2)]
             d = menu[ch.choose(4, lambda c: "draw %r vs curve value %r" % (menu[c], p))]
@@ -135,7 +140,7 @@ def execute(ch, cfg):
         def dist():
             if first[0]:
                 first[0] = False
-                return 0.25
+                return 0.25 if not cfg.get("coincide") else 1
             return 1
         mon = PortMonitor(env, port, dist, pkt_in_service_included=cfg["mon"])
         env.process(mon.run())
@@ -266,6 +271,9 @@ def execute(ch, cfg):
     if mon is not None:
         incl = cfg["mon"]
         exp_n, exp_b = [], []
+        if cfg.get("coincide"):
+            check_coincident(net, accepted, mon, horizon, res, tag)
+            return res
         t = 0.25
         while t <= horizon:
             nheld = [x for x in accepted if x.t < t and (x.dep is None or x.dep.t > t)]
@@ -282,3 +290,29 @@ def execute(ch, cfg):
         elif list(mon.sizes_byte) != exp_b:
             res.bad("C09.monitor", mt + ":byte-samples", "got %s want %s" % (list(mon.sizes_byte), exp_b))
     return res
+
+
+def check_coincident(net, accepted, mon, horizon, res, tag):
+    """service-included samples at integer instants: the sample must equal the occupancy before, between or after the
+    arrivals and departures of that very instant (in their observed order)"""
+    evs = sorted([(a.seq, a.t, +1, a.size) for a in accepted] + [(a.dep.seq, a.dep.t, -1, a.size) for a in accepted if a.dep is not None])
+    t = 1
+    k = 0
+    while t <= horizon and k < len(mon.sizes):
+        n = b = 0
+        for (seq, tt, sign, size) in evs:
+            if tt < t:
+                n += sign; b += sign * size
+        okn, okb = {n}, {(n, b)}
+        for (seq, tt, sign, size) in evs:
+            if tt == t:
+                n += sign; b += sign * size
+                okb.add((n, b))
+        res.ev("C09.monitor")
+        got = mon.sizes_byte[k]
+        if got not in set(x[1] for x in okb):
+            res.bad("C09.monitor", tag + ":rate=pos:service-included:sample-at-an-event-instant-matches-no-occupancy-of-that-instant",
+                    "t=%r: sampled %r bytes, byte occupancies passed through at that instant %r" % (t, got, sorted(set(x[1] for x in okb))))
+            return
+        t += 1
+        k += 1
